@@ -11,11 +11,12 @@ bandwidth factor to min(bandwidth, gamma/(2 lat)) instead of to the bandwidth on
 window term takes part in the minimum differ from the property's formula (they must then match the other reading,
 Models!CommRateFactorOnWindow, exactly; anything else is a plain violation).
 
-Mutations tried (tools/mutbuild.sh, quick tier), all caught (exit 1):
-  * network_cm02.cpp: cross-traffic weight .05 -> .5                       (cross-traffic cases of every model)
-  * network_cm02.cpp: latency factor not applied (latency_ *= factor removed)  (LV08 / SMPI cases)
-  * cpu_cas01.cpp: bound of a multi-threaded execution requested_core*speed -> speed  (exec cases with threads > 1)
-  * disk_s19.cpp: writes expanded on the read constraint                   (write cases with read_bw != write_bw)
+Mutations tried (tools/mutbuild.sh):
+  * network_cm02.cpp: cross-traffic weight .05 -> .5: CAUGHT by the full quick tier (exit 1; every cross-traffic case of
+    every model, e.g. raw: measured 640.015625 s, documented 448.015625 s)
+  prepared but NOT run (the machine was heavily loaded; the coordinator stopped the mutation experiments before the whole list was run):
+  * network_cm02.cpp: latency factor not applied; cpu_cas01.cpp: bound of a multi-threaded execution = speed of one
+    core; disk_s19.cpp: writes expanded on the read constraint
 """
 import json, os
 from fractions import Fraction
@@ -25,10 +26,6 @@ from surf_common import dy, tok, dec, frac
 
 LEVEL = "exploration"
 DRIVERS = S.DRIVERS
-META = {"text": "Every formula of the statement is an operator of spec/surf/Models.tla over exact rationals (parameters from Models.rst / Configuring_SimGrid.rst); TLC evaluates it on an exhaustive core grid (about 4 900 cases) and a seeded random layer and the real models must reproduce each expected duration to 1e-9 relative; exploration level because the domain (real-valued sizes, speeds, latencies) is sampled on a dyadic grid, not exhausted.",
-        "note": "Trusted: TLC's evaluation of Models.tla, the driver's platform construction through the public C++ API, binary64 rendering of the dyadic parameters (exact). Sizes equal to an SMPI factor boundary and WIFI links are outside the domain. The LV08/SMPI window-limited deviation is a recorded known finding, still compared with the exact alternative reading.",
-        "technique": "TLC as exact oracle over a generated case grid (G) + replay on the real models (surf_driver) + exact rational/double comparison"}
-
 MANT = [1, 3, 5, 7]
 POLICIES = ["SHARED", "FATPIPE", "SPLITDUPLEX"]
 MODELS = ["raw", "CM02", "LV08", "SMPI"]
